@@ -15,7 +15,7 @@ def trunc_instr(draw):
            "thr": draw(st.sampled_from([1e-4, 1e-3, 1e-2, 0.05, 0.1, 0.3, 0.6, 0.8])),
            "M": draw(st.sampled_from([1, 1, 2, 2, 3, 4, 5, 8])), "style": draw(st.sampled_from(["config", "config_list", "temp_int", "temp_list"])),
            "Mlist": draw(st.lists(st.sampled_from([1, 2, 2, 3, 4, 6]), min_size=9, max_size=9)),
-           "ret_s": draw(st.booleans())}
+           "ret_s": draw(st.booleans()), "via_copy": draw(st.integers(0, 2)) == 0}
     return ins
 
 
@@ -126,6 +126,12 @@ class Interp05(chain.Interp):
                 limits = Mlist
             x.compress_config = cfg
             eff_crit = ins["crit"]
+            if ins.get("via_copy"):
+                # the configuration (incl. per-bond limits) travels with copies: configure, copy, compress the copy
+                ok, x = self.guard("trunc.copy_configured", x.copy)
+                if not ok:
+                    return
+                r.classes.append("trunc.via_copy")
         to_right = bool(x.to_right)
         if ins["ret_s"]:
             ok, res = self.guard("trunc.compress", lambda: x.compress(temp_m_trunc=temp, ret_s=True))
@@ -227,7 +233,7 @@ class C05(Prop):
                    "kept counts compared with a dense replica of the same sweep unless a singular value lies within 1e-6 of the cut"]
 
     def budget(self, tier):
-        return dict(examples=800, shards=16) if tier == "quick" else dict(examples=30000, shards=16)
+        return dict(examples=2400, shards=16) if tier == "quick" else dict(examples=60000, shards=16)
 
     def strategy(self, tier):
         return all_cases(tier)
